@@ -14,6 +14,8 @@ def run(ctx):
         ic.rule_override(ctx, cfg, r3)
         r4 = ctx.rule("R07.4" + sfx, "clean suspension: a state that returns needs-more-input / has-more-output has modified nothing but the bit buffer and input position", floor=40, config=cfg)
         ic.rule_clean_suspension(ctx, cfg, r4)
+        r6 = ctx.rule("R07.6" + sfx, "bytes handed back at a suspension leave no bits behind: the saved bit buffer is masked to the lowered num_bits", floor=4, config=cfg)
+        ic.rule_handback_mask(ctx, cfg, r6)
         r5 = ctx.rule("R07.5" + sfx, "multi-byte fields (zlib trailer, stored-block header) are collected through a persisted counter, one byte per step", floor=6, config=cfg)
         ic.rule_counted_bytes(ctx, cfg, r5)
         ic.rule_counted_bytes(ctx, cfg, r5, arm="RawHeader", limit=4, acc_field=None)
